@@ -105,20 +105,6 @@ theorem op_pairwise {alts : List Alt} (h : Opt.isOrderPreserving G alts = true) 
 
 /-! ### primitive matchers -/
 
-theorem swa_size : ∀ (s : Str) (pos : Nat), startsWithAt inp s pos = true → pos + s.length ≤ inp.size
-  | [], pos, h => by simpa [startsWithAt] using h
-  | c :: rest, pos, h => by
-    simp only [startsWithAt, Bool.and_eq_true] at h
-    have := swa_size rest (pos + 1) h.2
-    simp only [List.length_cons]; omega
-
-theorem swaCI_size : ∀ (s : Str) (pos : Nat), startsWithAtCI inp s pos = true → pos + s.length ≤ inp.size
-  | [], pos, h => by simpa [startsWithAtCI] using h
-  | c :: rest, pos, h => by
-    simp only [startsWithAtCI, Bool.and_eq_true] at h
-    have := swaCI_size rest (pos + 1) h.2
-    simp only [List.length_cons]; omega
-
 theorem swa_head {h : CP} {t : Str} {pos : Nat} (hh : startsWithAt inp (h :: t) pos = true) :
     inp[pos]? = some h := by
   simp only [startsWithAt, Bool.and_eq_true] at hh
@@ -764,7 +750,7 @@ theorem squashSem : SquashSem := by
 
 /-! ### the builder: `squash_choice` computes `TR`-related bodies -/
 
-theorem SqOK_of_NodeOK {sg : String → Option (String × Nat)} (x : Expr) (h : NodeOK sg x) : SqOK x := by
+theorem SqOK_of_NodeOK {sg : Cx} (x : Expr) (h : NodeOK sg x) : SqOK x := by
   cases x with
   | rule n m sm b =>
     simp only [NodeOK] at h
@@ -833,11 +819,12 @@ theorem op_congr {G' : Grammar} (hu : G'.usets = G.usets) (alts : List Alt) :
     Opt.isOrderPreserving G' alts = Opt.isOrderPreserving G alts := by
   rw [Bool.eq_iff_iff, op_iff, op_iff, compat_congr G hu]
 
-variable {F : Feat} {sg : String → Option (String × Nat)}
+variable {F : Feat} {sg : Cx}
 
 theorem squashChoice_root {g : Grammar} (hu : G.usets = g.usets) (hF : F.squash = true)
-    (hG : ∀ n r, n ≠ "SKIP" → G.lookup n = some r → AllN (NodeOK sg) r.body)
-    {a : Bool} {e x : Expr} (he : AllN (NodeOK sg) e) (h : Cong1 (TR F G a) e x) :
+    (hsig : ∀ n, sigOf G n = sg.sig n)
+    (hG : ∀ n r, n ≠ "SKIP" → G.lookup n = some r → AllN (NodeOK ⟨sg.sig, forced r⟩) r.body)
+    {a : Bool} {e x : Expr} (he : AllN (NodeOK sg) e) (h : Cong1 a (TR F G a) e x) :
     TR F G a e (Opt.squashChoice g x) := by
   cases h with
   | @choice es es' hl hh =>
@@ -848,7 +835,7 @@ theorem squashChoice_root {g : Grammar} (hu : G.usets = g.usets) (hF : F.squash 
       dsimp only
       by_cases hop : Opt.isOrderPreserving g alts = true
       · rw [if_pos hop]
-        have hx : AllN (NodeOK sg) (.choice es') := (TR.choice hl hh : TR F G a _ _).allN hG he
+        have hx : AllN (NodeOK sg) (.choice es') := (TR.choice hl hh : TR F G a _ _).allN hsig hG he
         have hall : AllNL SqOK es' := AllNL.imp2 (fun y hy => SqOK_of_NodeOK y hy.root) es' hx.2
         have hne : es' ≠ [] := hx.1
         have hlen := (squash_length 1000 es' [] alts hsq hall).2 hne
@@ -859,6 +846,7 @@ theorem squashChoice_root {g : Grammar} (hu : G.usets = g.usets) (hF : F.squash 
   | term ht => cases e <;> simp [isTerm] at ht <;> exact .term rfl
   | ident => exact .ident
   | rule => exact .rule
+  | ruleC hra h => exact .ruleC hra h
   | seq hl hh => exact .seq hl hh
   | opt h => exact .opt h
   | rep h => exact .rep h
@@ -872,10 +860,10 @@ theorem squashChoice_root {g : Grammar} (hu : G.usets = g.usets) (hF : F.squash 
   | group h => exact .group h
   | push h => exact .push h
 
-theorem squashChoice_TR {g : Grammar} (hu : G.usets = g.usets) (hF : F.squash = true) (hinv : Inv F sg G)
+theorem squashChoice_TR {g : Grammar} (hu : G.usets = g.usets) (hF : F.squash = true) (hinv : Inv F sg.sig G)
     (a : Bool) (e : Expr) (he : AllN (NodeOK sg) e) :
     TR F G a e (Opt.mapBottomUp (Opt.squashChoice g) e) :=
-  bottomUp_TR _ a (fun _ _ he h => squashChoice_root G hu hF hinv.lookup_nodes he h) e he
+  bottomUp_TR _ a (fun _ _ he h => squashChoice_root G hu hF hinv.sig hinv.lookup_nodes he h) e he
 
 end OptS
 end Pest
